@@ -3,7 +3,7 @@ def _sig(case, impl, pred):
     return p.split(":")[0]
 
 CONFIG = {
-    "modules": ["GoPlugin.Props.C06", "GoPlugin.Props.IdAlloc", "GoPlugin.Instance.C06"],
+    "modules": ["GoPlugin.Props.C06", "GoPlugin.Props.IdAlloc", "GoPlugin.Props.Hygiene", "GoPlugin.Instance.C06"],
     "scenario": "C06",
     "signature": _sig,
     "trivial": lambda impl: False,
